@@ -42,8 +42,8 @@ Section Canon.
   (* None = panic / out of fuel somewhere below *)
   Definition Canonicalize (u : url) : option url :=
     bind (if p_repeated p then
-      bind (if negb (is_nil (Hostname u))
-            then bind (decodeEncode (Hostname u) pes_Host) (SetHostname idna_raw c u) else Some u) (fun u =>
+      bind (if negb (is_nil (Hostname u)) && negb (IsIPv6 u)
+            then bind (decodeEncode (Hostname u) pes_HostDecode) (SetHostname idna_raw c u) else Some u) (fun u =>
       bind (Pathname u) (fun pn =>
       bind (if negb (is_nil pn)
             then bind (decodeEncode pn pes_LaxPath) (SetPathname idna_raw c u) else Some u) (fun u =>
